@@ -390,6 +390,12 @@ func brKeys(c *engine.Chooser, cf brConfig, lwe, br rlwe.Parameters, skLWE, skBR
 func evaluate(c *engine.Chooser, cf brConfig, name string, eval *blindrot.Evaluator, ct *rlwe.Ciphertext, tpm map[int]*ring.Poly, ks blindrot.BlindRotationEvaluationKeySet, br rlwe.Parameters) (res map[int]*rlwe.Ciphertext, err error, stop bool) {
 	_, pan := uni.Try(func() error { res, err = eval.Evaluate(ct, tpm, ks); return nil })
 	if pan == nil {
+		if err != nil && ct.Level() > br.MaxLevel() {
+			// documented refusal (fix b05fd3c): a sample with more moduli than the blind-rotation ring is rejected
+			// with an error; nothing to judge on this call.
+			c.Cover("br-rejected", "lwe-level-above-br-ring")
+			return nil, nil, true
+		}
 		return res, err, false
 	}
 	if ct.Level() > br.MaxLevel() {
